@@ -35,17 +35,52 @@ func c08Path(target string, rel []string) string {
 // roots); each node path present or not (downward closed; a childless present node may be a file or a directory,
 // a root may be a file, the first root may be a symbolic link to a directory), up to two extra entries at solver-chosen places beneath present directories; strict or not;
 // From-Markdown (forest) or From-Root (first tree of the forest, built with NewRoot/Add).
+// c08ByteName: a name of 1..2 bytes over a small alphabet that has bytes on both sides of '/' in byte order ('-' and
+// '.' sort below it, '0' and 'a' above), so that the order of a directory listing (lexical per directory) and the
+// string order of full paths can disagree; a single valid path element.
+// c08FixedLen (verifN() >= 200, the quick variant): every name has one byte except every third one drawn, which has two
+var c08FixedLen bool
+var c08NameSeq int
+
+func c08ByteName(label string) string {
+	l := 1
+	if c08FixedLen {
+		c08NameSeq++
+		if c08NameSeq%3 == 0 {
+			l = 2
+		}
+	} else {
+		l = int(verifChoose("len", 1, 2))
+	}
+	nm := verifBytes(label, l)
+	for i := 0; i < len(nm); i++ {
+		verifAssume(c08Alphabet[nm[i]] == 1) // one constraint per byte (a table lookup), not a path split per alternative
+	}
+	verifAssume(nm != "." && nm != "..")
+	return nm
+}
+
+var c08Alphabet = [256]uint8{'-': 1, '.': 1, '0': 1, 'a': 1}
+
 func VerifC08() {
 	n := verifN() % 10
-	maxExtras := uint(verifN() / 10) // verifN() = 10*extras + rows
-	lines, rows := wellFormedLines(n, verifName)
+	maxExtras := uint((verifN() / 10) % 10) // verifN() = 100*bytes + 10*extras + rows
+	// byte level (verifN() >= 100): names are symbolic bytes, the paths go through the real filepath code, and the
+	// directory listing of the model is in the real order: fs.WalkDir visits the entries of a directory sorted by name
+	byteLevel := verifN() >= 100
+	c08FixedLen, c08NameSeq = verifN() >= 200, 0
+	nameFn := verifName
+	if byteLevel {
+		nameFn = c08ByteName
+	}
+	lines, rows := wellFormedLines(n, nameFn)
 	nodes, roots := specForest(lines)
 	for i, r := range roots {
 		for j := 0; j < i; j++ {
 			verifAssume(nodes[r].name != nodes[roots[j]].name)
 		}
 	}
-	fromRoot := verifFlag("fromRoot")
+	fromRoot := !byteLevel && verifFlag("fromRoot")
 	if fromRoot {
 		verifAssume(len(roots) == 1)
 	}
@@ -54,14 +89,15 @@ func VerifC08() {
 	present := make([]bool, len(nodes))
 	isFile := make([]bool, len(nodes))
 	for i := range nodes {
-		pres := verifFlag("present")
+		// byte level: the subject is the order of the listing, not the subsets: at most the last node is missing
+		pres := (byteLevel && i < len(nodes)-1) || verifFlag("present")
 		if nodes[i].parent >= 0 && (!present[nodes[i].parent] || isFile[nodes[i].parent]) {
 			if pres {
 				verifAssume(false) // cannot exist beneath a missing node or a file
 			}
 		}
 		present[i] = pres
-		if pres && len(nodes[i].children) == 0 && verifFlag("asFile") {
+		if pres && !byteLevel && len(nodes[i].children) == 0 && verifFlag("asFile") {
 			isFile[i] = true
 		}
 	}
@@ -80,7 +116,7 @@ func VerifC08() {
 		if !present[at] || isFile[at] {
 			verifAssume(false)
 		}
-		x := verifName("extra")
+		x := nameFn("extra")
 		for _, c := range nodes[at].children {
 			verifAssume(nodes[c].name != x)
 		}
@@ -89,9 +125,11 @@ func VerifC08() {
 		for _, e := range extras {
 			verifAssume(e.path != p)
 		}
-		extras = append(extras, extraT{root: c08RootOf(nodes, at), at: at, kind: int(verifChoose("extraKind", 1, 2)), first: verifFlag("extraFirst"), rel: rel, path: p})
+		extras = append(extras, extraT{root: c08RootOf(nodes, at), at: at, kind: int(verifChoose("extraKind", 1, 2)), first: !byteLevel && verifFlag("extraFirst"), rel: rel, path: p})
 	}
 	// the directory state, in walk order: a node, the extras that sort before its children, its subtree, the others
+	// (tree level: the position of an extra is a flag; byte level: everything beneath a directory in the order of the
+	// names, as a real directory listing is)
 	var addNode func(i int)
 	addNode = func(i int) {
 		if !present[i] {
@@ -102,6 +140,37 @@ func VerifC08() {
 			kind = 2
 		}
 		vfsAdd(nodeRel(nodes, i), kind)
+		if byteLevel {
+			type ent struct {
+				name  string
+				child int // node index, or -1 for an extra
+				extra int
+			}
+			var ents []ent
+			for _, c := range nodes[i].children {
+				if present[c] {
+					ents = append(ents, ent{nodes[c].name, c, -1})
+				}
+			}
+			for k, e := range extras {
+				if e.at == i {
+					ents = append(ents, ent{e.rel[len(e.rel)-1], -1, k})
+				}
+			}
+			for a := 1; a < len(ents); a++ {
+				for b := a; b > 0 && ents[b].name < ents[b-1].name; b-- {
+					ents[b], ents[b-1] = ents[b-1], ents[b]
+				}
+			}
+			for _, e := range ents {
+				if e.child >= 0 {
+					addNode(e.child)
+				} else {
+					vfsAdd(extras[e.extra].rel, extras[e.extra].kind)
+				}
+			}
+			return
+		}
 		for _, e := range extras {
 			if e.at == i && e.first {
 				vfsAdd(e.rel, e.kind)
@@ -119,7 +188,7 @@ func VerifC08() {
 	for _, r := range roots {
 		addNode(r)
 	}
-	if present[roots[0]] && !isFile[roots[0]] && verifFlag("rootLink") {
+	if present[roots[0]] && !isFile[roots[0]] && !byteLevel && verifFlag("rootLink") {
 		// the first root is a symbolic link to a directory (which holds everything listed beneath it): it exists, and
 		// so does what is beneath it
 		vfsMakeLink(nodeRel(nodes, roots[0]))
